@@ -598,6 +598,48 @@ def c16_search(ctx, failing, corr, broken):
                 break
         if len(out) >= 5:
             break
+    # signed zeros: a plain cast keeps the sign, also when a negative value underflows to zero
+    if broken and len(out) < 5:
+        seen = set()
+        reqs, info = [], []
+        for (e, fmt) in targets:
+            if (e['id'], fmt) in seen or (e['meta']['cls'] in ('Direction', 'PlanarDirection')):
+                continue
+            seen.add((e['id'], fmt))
+            v = e['instances'][0]['fmts'].get(str(fmt))
+            if v is None:
+                continue
+            infm = co.input_formats(v['tree'], v['n_in'], fmt)
+            for kind in ('negzero', 'tiny'):
+                xs = []
+                for f_ in infm:
+                    p_, emax_ = co.FMT[f_]
+                    xs.append((True, 0, 0) if kind == 'negzero' else (True, 1, 1 - emax_ - (p_ - 1)))
+                reqs.append((e['index'], fmt, [co.hex_of(*x) for x in xs], []))
+                info.append((e, fmt, xs))
+            if len(reqs) > 3000:
+                break
+        res, _, _ = ctx.run_native(reqs) if reqs else ([], None, None)
+        for (e, fmt, xs), r in zip(info, res):
+            if r is None or r.get('error'):
+                continue
+            outs = num_outs(r)
+            n = len(outs)
+            off = 0 if e['meta']['kind'] == 'cast-ctor' else n
+            for i, (label, c) in enumerate(outs):
+                if off + i >= len(xs):
+                    break
+                want = pyfloat.round_to(_val(xs[off + i]), fmt)
+                wc = '-0 0' if want == 0 else co.canon(want)
+                if c != wc:
+                    out.append({'kind': 'c16-cast', 'entry': e['id'], 'fmt': fmt, 'index': e['index'],
+                                'inputs': [co.hex_of(*x) for x in xs], 'component': i, 'native_output': c,
+                                'plain_cast_of_source_component': wc,
+                                'what': '%s: component %d is %s, the plain cast of the source component %s is %s '
+                                        '(the sign of zero is part of the value)' % (e['id'], i, c, co.hex_of(*xs[off + i]), wc)})
+                    break
+            if len(out) >= 5:
+                break
     return out
 
 
